@@ -611,7 +611,12 @@ class CallMixin:
             outs.append(("exc", s, e))
         # normal outcome
         self.havoc_modifies(c, st, env)
-        if c.pure and not isinstance(c.returns_, ty._NoneT):
+        if getattr(c, "fresh_result", False):
+            RT = c.returns_
+            results = [(st, st.new_obj(RT.cls, RT if isinstance(RT, (ty.Map, ty.Lst)) else None))]
+            if isinstance(RT, ty.Map):
+                st.map_clear(results[0][1])
+        elif c.pure and not isinstance(c.returns_, ty._NoneT):
             results = self.pure_result(c, env, st)
         else:
             results = self.fresh_of_type(st, c.returns_, "ret") if not isinstance(c.returns_, ty._NoneT) else [(st, NONE)]
@@ -622,7 +627,7 @@ class CallMixin:
             for tag, eargs in c.events_:
                 s.emit(tag, [self.spec_value(a, old, env2) for a in eargs], site)
             if not c.trusted:
-                s.emit(f"call:{short}", [env[p[0]] for p in c.params], site)
+                s.emit(f"call:{short}", [res] + [env[p[0]] for p in c.params], site)
             for label, expr, _p in c.ensures_:
                 s.assume(self.spec_eval(expr, s, env2, old=old))
             if self.feasible(s):
@@ -888,12 +893,12 @@ class CallMixin:
                 return [self.val(st, VBool(cfg[key]))]
             return [self.val(st, VBool(True))]
         if isinstance(v, VRef):
-            if v.cls != "<exc>" and (self.schema.has_field(v.cls, name) or self.find_method(v.cls, name)):
-                return [self.val(st, VBool(True))]
             cfg = getattr(self.schema, "config_hasattr", {})
             key = f"{v.cls}.{name}"
             if key in cfg:
                 return [self.val(st, VBool(cfg[key]))]
+            if v.cls != "<exc>" and (self.schema.has_field(v.cls, name) or self.find_method(v.cls, name)):
+                return [self.val(st, VBool(True))]
             return [self.val(st, VBool(False))]
         if isinstance(v, (VObj,)):
             return [self.val(st, VBool(_hasattr(v.t, z3.IntVal(const_id(f"attr:{name}")))))]
